@@ -107,6 +107,12 @@ func checkPacketCodec(c *mon.Ctx, stage string, idx int64, p *astits.Packet) {
 		}
 		c.Count("packets_written_with_stale_length_fields")
 	}
+	if idx%4 == 2 && !model.Header.HasAdaptationField && model.AdaptationField == nil {
+		// adaptation_field_control is what the header says: an application that clears the flag of a packet it keeps (a PCR packet
+		// re-armed as a plain one, a parsed packet stripped of its field) leaves the pointer behind
+		model.AdaptationField = &astits.PacketAdaptationField{HasPCR: true, PCR: &astits.ClockReference{Base: 1234567, Extension: 89}, RandomAccessIndicator: true, StuffingLength: int(idx % 7)}
+		c.Count("packets_written_with_a_left_over_adaptation_field_pointer")
+	}
 	out, n, werr, pan := muxWritePacket(model)
 	switch {
 	case pan != "":
